@@ -153,6 +153,14 @@ def call(f, *args, timeout: float = 5.0):
         return ("err", "typeerr")
     except KeyError:
         return ("err", "keyerr")
+    except AttributeError as ex:
+        # raised by the harness's own access to a private attribute (renamed or removed by a refactoring)
+        # rather than inside the implementation: the check cannot observe, which is a broken tie, not an answer
+        import traceback as _tb
+        frames = _tb.extract_tb(ex.__traceback__)
+        if frames and str(VERIF / "harness") in frames[-1].filename:
+            raise
+        return ("err", "other:AttributeError")
     except Exception as ex:  # noqa: BLE001
         if type(ex) is Exception:
             LAST["text"] = str(ex)
